@@ -37,7 +37,15 @@ func runClosest(c *Case, mode string, k int, maxd float64) result {
 	tTxt := renderFasta(tn, ts, randLayout(lr))
 	threads := atoi(c.Get("threads"))
 	if isCLI(c) && (mode == "plain" || k > 0 || maxd != -1) {
-		args := []string{"closest", "--query", "{dir}/q.fa", "--target", "{dir}/t.fa", "-m", c.Get("measure"), "-t", fmt.Sprint(threads)}
+		// the measure is documented as case-insensitive ("raw", "snp" or "tn93")
+		meas := c.Get("measure")
+		switch idSeed(c.ID) % 3 {
+		case 1:
+			meas = strings.ToUpper(meas)
+		case 2:
+			meas = strings.ToUpper(meas[:1]) + meas[1:]
+		}
+		args := []string{"closest", "--query", "{dir}/q.fa", "--target", "{dir}/t.fa", "-m", meas, "-t", fmt.Sprint(threads)}
 		if mode != "plain" {
 			if k > 0 {
 				args = append(args, "-n", fmt.Sprint(k))
